@@ -445,6 +445,10 @@ pub fn displaced_family(tier: Tier, report: &mut Report) {
             Report::new,
             |acc, i| {
                 let s = &strings[i];
+                // quick tier: the meaningful fillers run on the strings of length <= 3 only
+                if tier == Tier::Quick && filler != b'y' && s.len() > 3 {
+                    return;
+                }
                 let offsets: Vec<usize> = (0..=s.len() + 1).collect();
                 check_string_variants(s, &offsets, &[1, 2, 4], None, &[Some(0), Some(1), Some(2), Some(3)], "C14", acc);
                 acc.states += 1;
